@@ -16,12 +16,13 @@ func TestProp(t *testing.T) {
 	r.RunProbes(probes())
 	faultPart.Run(r)
 	enumPart.Run(r)
+	requiresPart.Run(r)
 }
 
 func TestReplay(t *testing.T) { pbt.StdReplay(t, "C07", dispatch()) }
 
 func dispatch() pbt.Dispatch {
-	return pbt.Dispatch{}.Add(faultPart.Name, faultPart.Handler()).Add(enumPart.Name, enumPart.Handler()).WithProbes(probes())
+	return pbt.Dispatch{}.Add(faultPart.Name, faultPart.Handler()).Add(enumPart.Name, enumPart.Handler()).Add(requiresPart.Name, requiresPart.Handler()).WithProbes(probes())
 }
 
 func probes() pbt.Probes {
@@ -34,5 +35,5 @@ func probes() pbt.Probes {
 }
 
 func TestMinimize(t *testing.T) {
-	pbt.StdMinimize(t, "C07", pbt.Minimizers{faultPart.Name: minimizeFault, enumPart.Name: minimizeFault})
+	pbt.StdMinimize(t, "C07", pbt.Minimizers{faultPart.Name: minimizeFault, enumPart.Name: minimizeFault, requiresPart.Name: minimizeFault})
 }
